@@ -604,6 +604,149 @@ fn plan(property: &str, tier: &str) -> Option<Plan> {
     }
 }
 
+// ---------------------------------------------------------------------------------------------
+// Pre-screen (scheduling only, decides nothing): every corpus program is run natively - real
+// cell types, real back ends - on two fixed inputs against the reference; programs that show a
+// difference are moved to the front of the job list, so that the time-boxed symbolic check reaches
+// them whatever share of the box their family gets.  On a tree where the property holds nothing is
+// flagged and the order is unchanged.  Runs in a child process (a crashing or hanging subject
+// cannot take the check down); whatever it printed before its time cap is used.
+
+const PRESCREEN_INPUTS: [[u8; 8]; 2] = [[1, 2, 3, 4, 5, 6, 7, 8], [0, 255, 7, 0, 128, 1, 9, 3]];
+
+fn prescreen_one(code: &str) -> bool {
+    let configs: [(Backend, u32); 6] = [(Backend::Ir, 1), (Backend::Ir, 3), (Backend::Bc, 0), (Backend::Bc, 3), (Backend::Jit, 0), (Backend::Jit, 3)];
+    for w in [8u32, 64] {
+        for inp in PRESCREEN_INPUTS.iter() {
+            let base = Case {
+                property: "prescreen".into(), backend: Backend::Inplace, width: w, level: 0, mode: Mode::Limited(2_000_000), program: code.to_string(), input: inp.to_vec(),
+                fail_read_at: None, fail_write_at: None, out_ok0: false, no_input: false, no_output: false, note: String::new(), profile: String::new(), guard: 0,
+            };
+            let r = native::run_ref_native(&base, 20_000);
+            if r.status != RefStatus::Halted {
+                continue;
+            }
+            for (b, l) in configs.iter() {
+                let c = Case { backend: *b, level: *l, ..base.clone() };
+                let res = std::panic::catch_unwind(std::panic::AssertUnwindSafe(|| native::run_native(&c)));
+                match res {
+                    Ok(run) => match run.ret {
+                        Ok(crate::subject::Ret::Finished(true)) if run.events == r.events => {}
+                        _ => return true,
+                    },
+                    Err(_) => return true,
+                }
+            }
+        }
+    }
+    false
+}
+
+/// Child side: prints one line `SUSPECT <json string>` per flagged program, `SCREENED <n>` at the end.
+pub fn prescreen_child(property: &str, tier: &str) -> i32 {
+    let programs: Vec<String> = if property == "C11" {
+        let (progs, _) = corpus_programs(tier, false);
+        jobs_for(&progs, &[8]).into_iter().map(|j| j.code).collect()
+    } else {
+        match plan(property, tier) {
+            Some(p) => {
+                let mut seen = std::collections::HashSet::new();
+                p.jobs.iter().filter(|j| seen.insert(j.code.clone())).map(|j| j.code.clone()).collect()
+            }
+            None => return 2,
+        }
+    };
+    let next = std::sync::atomic::AtomicUsize::new(0);
+    let done = std::sync::atomic::AtomicUsize::new(0);
+    std::thread::scope(|sc| {
+        for _ in 0..threads() {
+            std::thread::Builder::new()
+                .stack_size(1 << 26)
+                .spawn_scoped(sc, || loop {
+                    let i = next.fetch_add(1, std::sync::atomic::Ordering::SeqCst);
+                    if i >= programs.len() {
+                        break;
+                    }
+                    if programs[i].len() <= 2000 && prescreen_one(&programs[i]) {
+                        println!("SUSPECT {}", serde_json::to_string(&programs[i]).unwrap());
+                        let _ = std::io::stdout().flush();
+                    }
+                    done.fetch_add(1, std::sync::atomic::Ordering::SeqCst);
+                })
+                .unwrap();
+        }
+    });
+    println!("SCREENED {}", done.load(std::sync::atomic::Ordering::SeqCst));
+    0
+}
+
+pub struct Prescreen {
+    pub suspects: Vec<String>,
+    pub screened: Option<u64>,
+    pub seconds: f64,
+}
+
+/// Parent side: run the child under a time cap and collect what it printed.
+pub fn prescreen(property: &str, tier: &str) -> Prescreen {
+    use std::io::{BufRead, BufReader};
+    use std::process::{Command, Stdio};
+    let t0 = Instant::now();
+    let cap = Duration::from_secs(if tier == "thorough" { 150 } else { 45 });
+    let mut out = Prescreen { suspects: vec![], screened: None, seconds: 0.0 };
+    if std::env::var("SYMX_NO_PRESCREEN").is_ok() || std::env::var("SYMX_ONLY_FAMILY").is_ok() {
+        return out;
+    }
+    let exe = match std::env::current_exe() {
+        Ok(e) => e,
+        Err(_) => return out,
+    };
+    let mut child = match Command::new(exe).args(["prescreen", property, "--tier", tier]).stdout(Stdio::piped()).stderr(Stdio::null()).spawn() {
+        Ok(c) => c,
+        Err(_) => return out,
+    };
+    let so = child.stdout.take().unwrap();
+    let (tx, rx) = std::sync::mpsc::channel::<String>();
+    std::thread::spawn(move || {
+        for line in BufReader::new(so).lines().map_while(Result::ok) {
+            if tx.send(line).is_err() {
+                break;
+            }
+        }
+    });
+    loop {
+        let left = cap.checked_sub(t0.elapsed()).unwrap_or(Duration::from_millis(0));
+        match rx.recv_timeout(left.max(Duration::from_millis(1))) {
+            Ok(line) => {
+                if let Some(js) = line.strip_prefix("SUSPECT ") {
+                    if let Ok(p) = serde_json::from_str::<String>(js) {
+                        out.suspects.push(p);
+                    }
+                } else if let Some(n) = line.strip_prefix("SCREENED ") {
+                    out.screened = n.trim().parse().ok();
+                }
+            }
+            Err(std::sync::mpsc::RecvTimeoutError::Disconnected) => break,
+            Err(std::sync::mpsc::RecvTimeoutError::Timeout) => {
+                if t0.elapsed() >= cap {
+                    break;
+                }
+            }
+        }
+    }
+    let _ = child.kill();
+    let _ = child.wait();
+    out.seconds = t0.elapsed().as_secs_f64();
+    out
+}
+
+fn prescreen_evidence(p: &Prescreen) -> Value {
+    json!({
+        "programs_screened": p.screened, "programs_flagged_and_moved_to_the_front": p.suspects.len(), "seconds": (p.seconds * 10.0).round() / 10.0,
+        "rule": "scheduling only, decides nothing: each corpus program is run natively (real cell types; irint, bcint and the JIT at two levels, 8 and 64 bits) on two fixed inputs against the reference interpreter; a program showing any difference is moved to the front of the job list of the time-boxed symbolic check; `programs_screened` is null when the child was stopped at its time cap",
+        "flagged_samples": p.suspects.iter().take(3).map(|s| report::short(s)).collect::<Vec<_>>(),
+    })
+}
+
 fn threads() -> usize {
     std::env::var("VERIF_THREADS").ok().and_then(|s| s.parse().ok()).unwrap_or_else(|| std::thread::available_parallelism().map(|n| n.get()).unwrap_or(8))
 }
@@ -694,6 +837,15 @@ pub fn run_check(property: &str, tier: &str, part: Option<&str>, worker: bool) -
     } else {
         None
     };
+    // scheduling pre-screen (decides nothing)
+    let mut plan = plan;
+    let pre = prescreen(property, tier);
+    if !pre.suspects.is_empty() {
+        let set: std::collections::HashSet<&String> = pre.suspects.iter().collect();
+        let (mut front, back): (Vec<Job>, Vec<Job>) = std::mem::take(&mut plan.jobs).into_iter().partition(|j| set.contains(&j.code));
+        front.extend(back);
+        plan.jobs = front;
+    }
     let res = run_plan(&plan);
     let mut candidates: Vec<Case> = Vec::new();
     for o in &res.outs {
@@ -750,6 +902,7 @@ pub fn run_check(property: &str, tier: &str, part: Option<&str>, worker: bool) -
     if !shapes_cov.is_null() {
         cov["shapes_symbolic_constants"] = shapes_cov;
     }
+    cov["prescreen"] = prescreen_evidence(&pre);
     cov["candidates"] = json!(n_candidates);
     cov["candidates_not_reproduced_natively"] = json!(sum.not_reproduced.len());
     cov["known_findings_matched"] = json!(sum.known.iter().map(|(k, v)| json!({"id": k, "cases": v.0})).collect::<Vec<_>>());
@@ -1192,7 +1345,16 @@ fn run_c11(tier: &str) -> i32 {
     let (progs, desc) = corpus_programs(tier, false);
     let ws = widths(tier);
     let jobs0 = jobs_for(&progs, &ws);
-    let jobs: Vec<(String, u32)> = jobs0.iter().map(|j| (j.code.clone(), j.width)).collect();
+    let mut jobs: Vec<(String, u32)> = jobs0.iter().map(|j| (j.code.clone(), j.width)).collect();
+    // scheduling pre-screen (decides nothing): a contract violation of the generated bytecode usually also
+    // shows as a behavioural difference of the interpreter or the JIT on some input
+    let pre = prescreen("C11", tier);
+    if !pre.suspects.is_empty() {
+        let set: std::collections::HashSet<&String> = pre.suspects.iter().collect();
+        let (mut front, back): (Vec<(String, u32)>, Vec<(String, u32)>) = std::mem::take(&mut jobs).into_iter().partition(|j| set.contains(&j.0));
+        front.extend(back);
+        jobs = front;
+    }
     let cfg = crate::c11::Cfg {
         limits: if thorough { Limits::thorough() } else { Limits::quick() },
         ref_steps: if thorough { 200_000 } else { 20_000 },
@@ -1273,6 +1435,7 @@ fn run_c11(tier: &str) -> i32 {
             "known_findings_matched": known_hits.iter().map(|(k, v)| json!({"id": k, "cases": v.0})).collect::<Vec<_>>(),
             "solver_queries": out.stats.queries, "solver_seconds": (out.stats.seconds * 1000.0).round() / 1000.0,
             "functions_encoded": ["hpbf::bc::CodeGen::translate(_, 2, true) as held by BcInterpreter (hook verif_bytecode)", "hpbf::bc::CodeGen::translate(_, 11, false) as held by BaseJitCompiler (hook verif_bytecode)", "semantics of bc::Instr written down in symx::bcval and cross-validated against the reference events on every halted path"],
+            "prescreen": prescreen_evidence(&pre),
             "corpus": desc,
             "bounds": {"levels": "0..3", "settings": "(2 registers, fusion) and (11 registers, no fusion)", "max_open_decisions_per_path": cfg.limits.max_decisions, "max_paths_per_program": cfg.limits.max_paths, "time_cap_per_program_and_width_s": cfg.job_cap.as_secs(),
                        "outside": "paths beyond the decision/path caps; programs not in the corpus; constants are concrete (SHAPES mode not built)"},
